@@ -5,78 +5,240 @@ nothing skipped or repeated."
 The model (`Model.lean`) describes what the code does; stops (`Action.crash`) may
 happen after every durable write, any number of times; `Reach sp H s` = `s` is
 reachable from the initial state by enabled actions allowed by the schedule
-predicate `H` (`anySchedule` = no restriction at all).
+predicate `H` (`anySchedule` = no restriction at all).  What happens on chain is
+NOT part of the scenario `Spec`: it is observed through `Facts` (who spent which
+output, preimages, heights), which only grow and in which an output is spent once.
 
 FULL STATEMENTS (the property as written):
 
   same_outcome      for every scenario and every schedule with stops, the run reaches the
                     same terminal state, resolves the same contracts with the same outcomes
                     and delivers the same set of upstream resolutions as the uninterrupted run.
-  resolved_last     StateFullyResolved / MarkChannelResolved only when the log holds no
-                    unresolved contract.
+  resolved_last     the channel is marked fully resolved only after all contracts are resolved.
   no_progress_lost  re-executing a stage never replaces a stored resolver by one with less
                     progress and never re-inserts a resolved one.
 
-`resolved_last` is proved in full.  The other two do NOT hold for the code (and hence for
-the model): see the `*_fails*` witnesses below, each reproduced on the real code by the
-harness.  What is proved instead:
+STATUS
 
-  * `upstream_consistent` / `no_contradictory_upstream` / `runs_never_contradict` — for every
-    schedule, every upstream resolution ever delivered is the one the chain dictates
-    (the "no contradictory upstream resolutions" half of same_outcome, unconditional);
-  * `same_outcome_partial` — if no stop happens while the durable state is
-    StateContractClosed, the channel is marked fully resolved only after EVERY contract of the
-    closed channel has been resolved (nothing skipped), so any two such runs that terminate
-    resolved the same contracts;  missing for the full statement: termination of the run with
-    stops (fails: `stuck_after_stop_between_checkpoint_and_delete`) and completeness of the
-    set of upstream dust failures (fails through finding F2 of C12 when the stop hits
-    StateDefault with the commit set already logged);
-  * `no_progress_lost_partial` — if resolver goroutines do not write while the durable state is
-    StateContractClosed, every (re-)execution of that state overwrites each stored resolver
-    with an identical one and nothing has been resolved yet; `checkpoint_monotone`: a
-    resolver's own checkpoints never lose progress.
+  * `resolved_last_log` (full, every schedule): StateFullyResolved / "fully closed" only while
+    the LOG holds no unresolved contract.  This is the log-level reading only: it does not say
+    that every contract of the channel was ever inserted.
+  * `resolved_last_partial` (the real clause): fully closed ⇒ every stateful contract of the
+    channel was resolved and deleted by its resolver — holds under `noStopInClosed`, FAILS
+    without it (`resolved_last_fails`, finding F3c).
+  * `upstream_justified`, `no_contradictory_upstream`, `runs_never_contradict` (every schedule):
+    each delivered upstream resolution is justified by an OBSERVED chain fact (settle ⇔ the htlc
+    output was seen spent by the remote party, fail ⇔ seen spent by us) or is one of the
+    arbitrator's own dust/dangling/breach fails; with unique htlc indices that are disjoint from
+    those lists (`IdxDisjoint`, proved for every spec built by `specOf` from an htlc set with
+    distinct indices and ONE dust classification per htlc) no index ever gets both resolutions.
+    Excluded by `IdxDisjoint`: an htlc that is dust on one commitment and not on the confirmed one
+    (finding F2 of C12).
+  * `same_outcome_partial` (under `noStopInWindows`): at termination every stateful contract is
+    resolved, every dust fail and every dangling/breach fail was delivered, every outgoing htlc
+    contract got its upstream resolution.  `same_outcome_of_terminated_runs`: two terminated runs
+    on the same chain resolved the same contracts and gave every htlc the same resolution.
+    NOT proved: termination of the run with stops (fails: F3b witness; under the restrictions it
+    additionally needs an ordering assumption on the environment, see notes), equality of the
+    terminal arbitrator state beyond "fully closed", reports.
+  * `no_progress_lost_partial` (under `noResInClosed`) and `checkpoint_monotone`; the full
+    statement FAILS (`no_progress_lost_fails`, finding F3).
 -/
-import LndModel.C13.Lemmas
+import LndModel.C13.Upstream
 
 namespace LndModel.C13.Props
 open LndModel.C13
 
-/-! ## resolved_last (full) -/
+/-! ## resolved_last -/
 
-/-- In every reachable state — any interleaving of the main goroutine and the resolvers, stops
-    after any write, repeated — `StateFullyResolved` is committed / the channel is marked fully
-    closed only while the log holds no unresolved contract. -/
-theorem resolved_last (sp : Spec) (s : Sys) (h : Reach sp anySchedule s) :
+/-- log-level reading, every schedule: `StateFullyResolved` is committed / the channel is marked
+    fully closed only while the log holds no unresolved contract. (It does not say that all
+    contracts of the channel were ever put into the log — see `resolved_last_partial`.) -/
+theorem resolved_last_log (sp : Spec) (s : Sys) (h : Reach sp anySchedule s) :
     (s.log.state = .fullyResolved ∨ s.chan.fullyClosed = true) → s.log.contracts = [] :=
   (reach_inv h).done
 
-/-- transition form: the write that commits `StateFullyResolved` starts from an empty log. -/
-theorem resolved_last_commit (sp : Spec) (s s' : Sys) (h : Reach sp anySchedule s)
+theorem resolved_last_log_commit (sp : Spec) (s s' : Sys) (h : Reach sp anySchedule s)
     (hs : step sp s .main = some s') (hnew : s'.log.state = .fullyResolved) :
     s'.log.contracts = [] :=
   (reach_inv (Reach.step h trivial hs)).done (Or.inl hnew)
 
-/-! ## no contradictory upstream resolutions (unconditional part of same_outcome) -/
+/-- FULL (the property's clause): for every schedule, fully closed ⇒ every stateful contract of
+    the closed channel has been resolved.  PROVED: under `noStopInClosed` (no stop while the durable
+    state is StateContractClosed; everything else unrestricted).  MISSING: that window —
+    `resolved_last_fails`. -/
+theorem resolved_last_partial (sp : Spec) (hcoop : sp.CoopClean) (s : Sys)
+    (h : Reach sp noStopInClosed s) (hc : s.chan.fullyClosed = true) :
+    ∀ c ∈ sp.contracts, c.kind.persisted = true → c.key ∈ s.resolvedKeys := by
+  intro c hcm hp
+  have hk := (reach_invK hcoop h).k1 (Or.inr (Or.inr (Or.inr hc))) c hcm hp
+  have hempty := (reach_inv h).done (Or.inr hc)
+  rcases hk with hk | hk
+  · simp [Log.keys, hempty] at hk
+  · exact hk
 
-theorem upstream_consistent (sp : Spec) (s : Sys) (h : Reach sp anySchedule s) :
-    ∀ m ∈ s.msgs, m ∈ expectedMsgs sp :=
+/-! ## upstream resolutions come from observed chain facts -/
+
+theorem upstream_justified (sp : Spec) (s : Sys) (h : Reach sp anySchedule s) :
+    ∀ m ∈ s.msgs, Justified sp s.facts m :=
   reach_msgsOk h
 
-/-- the chain dictates one resolution per htlc index. -/
-def Spec.Unambiguous (sp : Spec) : Prop :=
-  ∀ i b b', (i, b) ∈ expectedMsgs sp → (i, b') ∈ expectedMsgs sp → b = b'
+/-- settle and fail of the same htlc would need its output to be observed spent both by the
+    remote party and by us. -/
+theorem justified_unique {sp : Spec} (hd : sp.IdxDisjoint) {f₁ f₂ : Facts}
+    (hsame : ∀ k x y, f₁.spendOf k = some x → f₂.spendOf k = some y → x = y)
+    {i : Nat} {b b' : Bool} (h1 : Justified sp f₁ (i, b)) (h2 : Justified sp f₂ (i, b')) : b = b' := by
+  rcases h1 with ⟨hb, hl⟩ | ⟨c, hc, ho, hi, hs⟩ <;> rcases h2 with ⟨hb', hl'⟩ | ⟨c', hc', ho', hi', hs'⟩
+  · simp only at hb hb'; rw [hb, hb']
+  · simp only at hi' hl; rw [← hi'] at hl; exact absurd hl (hd.notListed c' hc' ho')
+  · simp only at hi hl'; rw [← hi] at hl'; exact absurd hl' (hd.notListed c hc ho)
+  · have hk := hd.inj c hc c' hc' ho ho' (by simp only at hi hi'; rw [hi, hi'])
+    rw [← hk] at hs'
+    have := hsame _ _ _ hs hs'
+    cases b <;> cases b' <;> simp_all
 
-theorem no_contradictory_upstream (sp : Spec) (hu : Spec.Unambiguous sp) (s : Sys)
+theorem no_contradictory_upstream (sp : Spec) (hd : sp.IdxDisjoint) (s : Sys)
     (h : Reach sp anySchedule s) :
-    ∀ i b b', (i, b) ∈ s.msgs → (i, b') ∈ s.msgs → b = b' :=
-  fun i b b' h1 h2 => hu i b b' (reach_msgsOk h _ h1) (reach_msgsOk h _ h2)
+    ∀ i b b', (i, b) ∈ s.msgs → (i, b') ∈ s.msgs → b = b' := by
+  intro i b b' h1 h2
+  exact justified_unique hd (fun k x y hx hy => by rw [hx] at hy; cases hy; rfl)
+    (reach_msgsOk h _ h1) (reach_msgsOk h _ h2)
 
-/-- a run with stops and any other run (e.g. the uninterrupted one) of the same scenario never
-    deliver contradictory resolutions for the same htlc. -/
-theorem runs_never_contradict (sp : Spec) (hu : Spec.Unambiguous sp) (s₁ s₂ : Sys)
-    (h₁ : Reach sp anySchedule s₁) (h₂ : Reach sp anySchedule s₂) :
+/-- a run with stops and any other run (e.g. the uninterrupted one) that observe the same chain
+    never deliver contradictory resolutions for the same htlc. -/
+theorem runs_never_contradict (sp : Spec) (hd : sp.IdxDisjoint) (s₁ s₂ : Sys)
+    (h₁ : Reach sp anySchedule s₁) (h₂ : Reach sp anySchedule s₂)
+    (hchain : ∀ k x y, s₁.facts.spendOf k = some x → s₂.facts.spendOf k = some y → x = y) :
     ∀ i b b', (i, b) ∈ s₁.msgs → (i, b') ∈ s₂.msgs → b = b' :=
-  fun i b b' h1 h2 => hu i b b' (reach_msgsOk h₁ _ h1) (reach_msgsOk h₂ _ h2)
+  fun _ _ _ h1 h2 => justified_unique hd hchain (reach_msgsOk h₁ _ h1) (reach_msgsOk h₂ _ h2)
+
+/-! ### specs built from the htlc set of the confirmed commitment -/
+
+inductive HtlcClass
+  | dust      -- no output on any commitment
+  | dangling  -- on a remote commitment that did not confirm
+  | live      -- has an output on the confirmed commitment
+  deriving DecidableEq, Repr
+
+structure HtlcDesc where
+  idx : Nat
+  cls : HtlcClass
+  expiry : Nat
+  incoming : Bool
+  deriving Repr
+
+def htlcKind (closeHeight delta : Nat) (h : HtlcDesc) : RKind :=
+  if h.incoming then .ic else if closeHeight + delta ≥ h.expiry then .to else .oc
+
+def htlcContract (closeHeight delta : Nat) (two : Bool) (h : HtlcDesc) : Contract :=
+  { key := h.idx, kind := htlcKind closeHeight delta h, twoStage := two, idx := h.idx,
+    expiry := h.expiry }
+
+/-- the scenario determined by the htlcs of the channel (each with ONE classification), the
+    closing height and the non-htlc contracts (commit output, anchor). -/
+def specOf (close : CloseKind) (closeHeight delta : Nat) (two : Bool) (hs : List HtlcDesc)
+    (extra : List Contract) : Spec :=
+  { close := close, closeHeight := closeHeight, delta := delta,
+    contracts := (hs.filter (·.cls == .live)).map (htlcContract closeHeight delta two) ++ extra,
+    dustFails := (hs.filter (fun h => h.cls == .dust && !h.incoming)).map (·.idx),
+    danglingFails := (hs.filter (fun h => h.cls == .dangling && !h.incoming)).map (·.idx),
+    breachFails := [],
+    finalFails := (hs.filter (fun h => h.cls == .dust && h.incoming)).map (·.idx) }
+
+theorem idx_inj {l : List HtlcDesc} (h : (l.map (·.idx)).Nodup) {a b : HtlcDesc}
+    (ha : a ∈ l) (hb : b ∈ l) (hk : a.idx = b.idx) : a = b := by
+  induction l with
+  | nil => simp at ha
+  | cons x rest ih =>
+    simp only [List.map_cons, List.nodup_cons, List.mem_map, not_exists, not_and] at h
+    simp only [List.mem_cons] at ha hb
+    rcases ha with rfl | ha <;> rcases hb with rfl | hb
+    · rfl
+    · exact absurd hk.symm (h.1 b hb)
+    · exact absurd hk (h.1 a ha)
+    · exact ih h.2 ha hb
+
+/-- `IdxDisjoint` is not an assumption about the code: it holds for every scenario built from an
+    htlc set with distinct indices. -/
+theorem idxDisjoint_specOf (close : CloseKind) (closeHeight delta : Nat) (two : Bool)
+    (hs : List HtlcDesc) (extra : List Contract) (hn : (hs.map (·.idx)).Nodup)
+    (hex : ∀ c ∈ extra, c.kind.isOut = false) :
+    (specOf close closeHeight delta two hs extra).IdxDisjoint := by
+  have hsrc : ∀ c ∈ (specOf close closeHeight delta two hs extra).contracts, c.kind.isOut = true →
+      ∃ h ∈ hs, h.cls = .live ∧ c = htlcContract closeHeight delta two h := by
+    intro c hc ho
+    simp only [specOf, List.mem_append, List.mem_map, List.mem_filter] at hc
+    rcases hc with ⟨h, ⟨hh, hcl⟩, rfl⟩ | hc
+    · exact ⟨h, hh, by simpa using hcl, rfl⟩
+    · rw [hex c hc] at ho; cases ho
+  constructor
+  · intro c hc ho hl
+    obtain ⟨h, hh, hlive, rfl⟩ := hsrc c hc ho
+    simp only [listFails, specOf, List.mem_append, List.mem_map, List.mem_filter,
+      List.not_mem_nil, or_false, htlcContract] at hl
+    rcases hl with ⟨h', ⟨hh', hcl'⟩, hi⟩ | ⟨h', ⟨hh', hcl'⟩, hi⟩
+    · have := idx_inj hn hh' hh hi
+      subst this
+      simp [hlive] at hcl'
+    · have := idx_inj hn hh' hh hi
+      subst this
+      simp [hlive] at hcl'
+  · intro c hc c' hc' ho ho' hi
+    obtain ⟨h, hh, _, rfl⟩ := hsrc c hc ho
+    obtain ⟨h', hh', _, rfl⟩ := hsrc c' hc' ho'
+    simpa [htlcContract] using hi
+
+/-! ## same_outcome (partial): nothing is skipped, nothing is missing upstream -/
+
+/-- FULL: for every schedule with stops the run reaches the same terminal state, the same set of
+    resolved contracts and the same set of upstream resolutions as the uninterrupted run.
+    PROVED: for every interleaving and every stop schedule that avoids the two windows of
+    `noStopInWindows` (the uninterrupted run is one such schedule), when the channel is marked
+    fully closed then (1) every stateful contract was resolved and deleted, (2) every outgoing-dust
+    fail and (3) every dangling / breach fail was delivered, (4) every outgoing htlc contract got an
+    upstream resolution.  MISSING: termination of the run with stops, the two windows themselves
+    (both fail on the code), reports / final htlc outcomes. -/
+theorem same_outcome_partial (sp : Spec) (hce : sp.CoopEmpty) (hk : sp.KeysNodup) (s : Sys)
+    (h : Reach sp noStopInWindows s) (hc : s.chan.fullyClosed = true) :
+    (∀ c ∈ sp.contracts, c.kind.persisted = true → c.key ∈ s.resolvedKeys) ∧
+    (∀ i ∈ sp.dustFails, (i, false) ∈ s.msgs) ∧
+    (∀ i ∈ closedFails sp, (i, false) ∈ s.msgs) ∧
+    (∀ c ∈ sp.contracts, c.kind.isOut = true → ∃ b, (c.idx, b) ∈ s.msgs) := by
+  obtain ⟨hu, _⟩ := reach_invU hce h
+  have hres := resolved_last_partial sp (coopClean_of_empty hce) s
+    (Reach.mono noStopInWindows_closed h) hc
+  refine ⟨hres, hu.u1 (Or.inr hc), hu.u2 (Or.inr (Or.inr (Or.inr hc))), ?_⟩
+  intro c hcm ho
+  have hp : c.kind.persisted = true := by
+    cases hkk : c.kind <;> simp [hkk, RKind.isOut] at ho <;> rfl
+  exact (reach_invR hk h).d1 c.key (hres c hcm hp) c (find?_of_mem hk hcm) ho
+
+/-- two terminated runs of the same scenario on the same chain (e.g. one with stops outside the
+    windows and the uninterrupted one) resolved the same contracts and gave every outgoing htlc the
+    same upstream resolution. -/
+theorem same_outcome_of_terminated_runs (sp : Spec) (hce : sp.CoopEmpty) (hk : sp.KeysNodup)
+    (hd : sp.IdxDisjoint) (s₁ s₂ : Sys)
+    (h₁ : Reach sp noStopInWindows s₁) (h₂ : Reach sp noStopInWindows s₂)
+    (hc₁ : s₁.chan.fullyClosed = true) (hc₂ : s₂.chan.fullyClosed = true)
+    (hchain : ∀ k x y, s₁.facts.spendOf k = some x → s₂.facts.spendOf k = some y → x = y) :
+    (∀ c ∈ sp.contracts, c.kind.persisted = true →
+        (c.key ∈ s₁.resolvedKeys ∧ c.key ∈ s₂.resolvedKeys)) ∧
+    (∀ c ∈ sp.contracts, c.kind.isOut = true →
+        ∃ b, (c.idx, b) ∈ s₁.msgs ∧ (c.idx, b) ∈ s₂.msgs) ∧
+    (∀ i ∈ sp.dustFails ++ closedFails sp, (i, false) ∈ s₁.msgs ∧ (i, false) ∈ s₂.msgs) := by
+  obtain ⟨r1, d1, c1, m1⟩ := same_outcome_partial sp hce hk s₁ h₁ hc₁
+  obtain ⟨r2, d2, c2, m2⟩ := same_outcome_partial sp hce hk s₂ h₂ hc₂
+  refine ⟨fun c hcm hp => ⟨r1 c hcm hp, r2 c hcm hp⟩, ?_, ?_⟩
+  · intro c hcm ho
+    obtain ⟨b₁, hb₁⟩ := m1 c hcm ho
+    obtain ⟨b₂, hb₂⟩ := m2 c hcm ho
+    have := justified_unique hd hchain (reach_msgsOk h₁ _ hb₁) (reach_msgsOk h₂ _ hb₂)
+    subst this
+    exact ⟨b₁, hb₁, hb₂⟩
+  · intro i hi
+    rcases List.mem_append.mp hi with hi | hi
+    · exact ⟨d1 i hi, d2 i hi⟩
+    · exact ⟨c1 i hi, c2 i hi⟩
 
 /-! ## no_progress_lost (partial) -/
 
@@ -84,7 +246,9 @@ theorem runs_never_contradict (sp : Spec) (hu : Spec.Unambiguous sp) (s₁ s₂ 
     re-inserts a resolved one.  PROVED: under `noResInClosed` (no resolver write while the
     durable state is StateContractClosed; stops unrestricted) the (re-)execution of
     StateContractClosed overwrites every stored resolver with an identical record and no
-    contract has been resolved before.  MISSING: the window itself, see `no_progress_lost_fails`. -/
+    contract has been resolved before.  (Under that restriction resolvers cannot have progressed,
+    so this says little more than "the re-execution is harmless then".)  MISSING: the window
+    itself, see `no_progress_lost_fails`. -/
 theorem no_progress_lost_partial (sp : Spec) (hk : sp.KeysNodup) (s : Sys)
     (h : Reach sp noResInClosed s) (hpc : s.pc = .adv) {ms : List (Nat × Bool)} {fs : List Nat}
     (hadv : advRes sp s = .insert ms fs) :
@@ -107,69 +271,35 @@ theorem checkpoint_monotone (sp : Spec) (f : Facts) (r : RunRes) (ms : List (Nat
     (rec : Rec) (pc : RPc) (h : resRes sp f r = .put ms rec pc) : r.rc.progress ≤ rec.progress :=
   resRes_put_progress h
 
-/-! ## same_outcome (partial): nothing is skipped -/
-
-/-- FULL: for every schedule with stops the run reaches the same terminal state, the same set of
-    resolved contracts and the same set of upstream resolutions as the uninterrupted run.
-    PROVED: for every interleaving and every stop schedule that does not stop while the durable
-    state is StateContractClosed (`noStopInClosed`; the uninterrupted run is one such schedule),
-    the channel is marked fully resolved only after EVERY stateful contract of the closed channel
-    has been resolved and deleted by its resolver.  MISSING: that the run with stops terminates
-    at all (`stuck_after_stop_between_checkpoint_and_delete`), the excluded window itself
-    (`same_outcome_fails_contract_skipped`), and completeness of the upstream dust failures. -/
-theorem same_outcome_partial (sp : Spec) (hcoop : sp.CoopClean) (s : Sys)
-    (h : Reach sp noStopInClosed s) (hc : s.chan.fullyClosed = true) :
-    ∀ c ∈ sp.contracts, c.kind.persisted = true → c.key ∈ s.resolvedKeys := by
-  intro c hcm hp
-  have hk := (reach_invK hcoop h).k1 (Or.inr (Or.inr (Or.inr hc))) c hcm hp
-  have hempty := (reach_inv h).done (Or.inr hc)
-  rcases hk with hk | hk
-  · simp [Log.keys, hempty] at hk
-  · exact hk
-
-/-- two terminated runs of the same scenario (e.g. one with stops outside the window and the
-    uninterrupted one) resolved the same contracts and never contradict each other upstream. -/
-theorem same_outcome_of_terminated_runs (sp : Spec) (hcoop : sp.CoopClean)
-    (hu : Spec.Unambiguous sp) (s₁ s₂ : Sys)
-    (h₁ : Reach sp noStopInClosed s₁) (h₂ : Reach sp noStopInClosed s₂)
-    (hc₁ : s₁.chan.fullyClosed = true) (hc₂ : s₂.chan.fullyClosed = true) :
-    (∀ c ∈ sp.contracts, c.kind.persisted = true →
-        (c.key ∈ s₁.resolvedKeys ↔ c.key ∈ s₂.resolvedKeys)) ∧
-    (s₁.log.contracts = [] ∧ s₂.log.contracts = []) ∧
-    (∀ i b b', (i, b) ∈ s₁.msgs → (i, b') ∈ s₂.msgs → b = b') := by
-  refine ⟨?_, ⟨(reach_inv h₁).done (Or.inr hc₁), (reach_inv h₂).done (Or.inr hc₂)⟩, ?_⟩
-  · intro c hcm hp
-    exact ⟨fun _ => same_outcome_partial sp hcoop s₂ h₂ hc₂ c hcm hp,
-           fun _ => same_outcome_partial sp hcoop s₁ h₁ hc₁ c hcm hp⟩
-  · intro i b b' m1 m2
-    exact hu i b b' (reach_msgsOk h₁ _ m1) (reach_msgsOk h₂ _ m2)
-
 /-! ## witnesses: where the full statements fail (all reproduced on the real code) -/
 
-/-- our own force close (chain trigger, one htlc inside the broadcast window so that a
-    re-execution rebuilds every resolver), one contested outgoing htlc, our commit output. -/
+/-- our own force close decided by the chain trigger: htlc 12 is inside the broadcast window at
+    height 100 (so a re-execution rebuilds every resolver), htlc 10 is contested, plus our commit
+    output. -/
 def specNear : Spec :=
-  { close := .localForce, near := true, hasRes := true,
-    contracts := [ { key := 10, kind := .oc, twoStage := true, remoteClaims := false, idx := 10, expiry := 140 },
-                   { key := 1000, kind := .cs, twoStage := false, remoteClaims := false, idx := 0, expiry := 0 } ],
+  { close := .localForce, closeHeight := 100, delta := 5,
+    contracts := [ { key := 10, kind := .oc, twoStage := true, idx := 10, expiry := 140 },
+                   { key := 12, kind := .to, twoStage := true, idx := 12, expiry := 103 },
+                   { key := 1000, kind := .cs, twoStage := false, idx := 0, expiry := 0 } ],
     dustFails := [20], danglingFails := [], breachFails := [], finalFails := [] }
 
 /-- up to "resolvers inserted and launched, StateWaitingFullResolution not yet committed". -/
 def toWindow : List Action :=
-  [.main, .main, .main, .main,            -- dust fail + BroadcastCommit, mark, publish + CommitmentBroadcasted, stay
+  [.fact (.height 100), .main, .main,     -- nothing to do at height 0; block 100: chain trigger
+   .main, .main, .main, .main,            -- dust fail + BroadcastCommit, mark, publish + CommitmentBroadcasted, stay
    .fact .close, .main, .main, .main,     -- LogContractResolutions, InsertConfirmedCommitSet, MarkChannelClosed
    .main, .main]                          -- CommitState(ContractClosed), InsertUnresolvedContracts + launch
 
 /-- in the window: the commit sweep resolves and is deleted, the contest resolver swaps to the
     timeout resolver; then the process stops. -/
 def f3Schedule : List Action :=
-  toWindow ++ [.fact (.spend1 1000), .res 1000, .res 1000, .fact (.height 141), .res 10, .crash]
+  toWindow ++ [.fact (.spend1 1000 .ours), .res 1000, .res 1000, .fact (.height 141), .res 10, .crash]
+
+def sF3 : Sys := run specNear init f3Schedule
 
 /-- F3: after that stop `StateContractClosed` is executed again; it replaces the stored
     timeout resolver (progress 1) by a fresh contest resolver (progress 0) and inserts the
     already resolved commit sweep resolver again. -/
-def sF3 : Sys := run specNear init f3Schedule
-
 theorem no_progress_lost_fails :
     sF3.pc = .adv ∧ advRes specNear sF3 = .insert [] [] ∧
       sF3.log.get? 10 = some { kind := .to, incub := false, resolved := false } ∧
@@ -178,27 +308,29 @@ theorem no_progress_lost_fails :
       ((freshRecs specNear sF3.trig).map (·.1)).contains 1000 = true := by
   decide
 
-/-- the same scenario without an htlc inside the broadcast window (user-requested force close). -/
-def specFar : Spec := { specNear with near := false }
+/-- the same channel without an htlc inside the broadcast window (user-requested force close). -/
+def specFar : Spec :=
+  { specNear with contracts := [ { key := 10, kind := .oc, twoStage := true, idx := 10, expiry := 140 },
+                                 { key := 1000, kind := .cs, twoStage := false, idx := 0, expiry := 0 } ] }
 
 def toClosedFar : List Action :=
-  [.main, .forceClose, .main, .main, .main, .main,
+  [.fact (.height 100), .main, .forceClose, .main, .main, .main, .main,
    .fact .close, .main, .main, .main, .main]     -- … CommitState(ContractClosed)
 
 def finish : List Action :=
   [.main, .main,                                  -- insert + launch, CommitState(WFR)
-   .fact (.spend1 1000), .res 1000, .res 1000,
-   .fact (.height 141), .res 10, .fact (.spend1 10), .res 10, .fact (.spend2 10), .res 10, .res 10,
+   .fact (.spend1 1000 .ours), .res 1000, .res 1000,
+   .fact (.height 141), .res 10, .fact (.spend1 10 .ours), .res 10, .fact (.spend2 10), .res 10, .res 10,
    .main, .main, .main, .main, .main]            -- signal, CommitState(FullyResolved), mark, wipe
 
-/-- F3c (same_outcome fails, a contract is skipped): a stop directly after
-    `CommitState(StateContractClosed)`.  The restart runs that state with `chainTrigger`; with no
-    htlc inside the broadcast window `checkCommitChainActions` returns early, no htlc resolver is
-    created, and the channel is marked fully resolved with the htlc never resolved and its
-    upstream htlc never failed back — while the uninterrupted run does both. -/
 def crashed : Sys := run specFar init (toClosedFar ++ [.crash] ++ finish)
 def plain : Sys := run specFar init (toClosedFar ++ finish)
 
+/-- F3c (same_outcome and the real resolved_last clause fail, a contract is skipped): a stop directly
+    after `CommitState(StateContractClosed)`.  The restart runs that state with `chainTrigger`; with
+    no htlc inside the broadcast window at the closing height `checkCommitChainActions` returns
+    early, no htlc resolver is created, and the channel is marked fully resolved with the htlc never
+    resolved and its upstream htlc never failed back — while the uninterrupted run does both. -/
 theorem same_outcome_fails_contract_skipped :
     plain.chan.fullyClosed = true ∧ plain.resolvedKeys.contains 10 = true ∧
       plain.msgs.contains (10, false) = true ∧
@@ -206,13 +338,19 @@ theorem same_outcome_fails_contract_skipped :
       crashed.msgs.contains (10, false) = false := by
   decide
 
+/-- the same state, read as the failure of the full `resolved_last` clause: marked fully closed,
+    the log is empty (`resolved_last_log` holds), contract 10 was never resolved. -/
+theorem resolved_last_fails :
+    crashed.chan.fullyClosed = true ∧ crashed.log.contracts = [] ∧
+      (specFar.contracts.any fun c => c.kind.persisted && !crashed.resolvedKeys.contains c.key) = true := by
+  decide
+
 /-- F3b (same_outcome fails, the run never terminates): a stop between the final checkpoint
     (`resolved = true` persisted) and `ResolveContract` (delete).  After the restart
     `resolveContract` does not enter its loop for the resolved resolver, nobody deletes the
-    record, and `StateWaitingFullResolution` never sees an empty log: no action of the
-    arbitrator is enabled any more, whatever else happens on chain. -/
+    record, and `StateWaitingFullResolution` never sees an empty log. -/
 def f3bSchedule : List Action :=
-  toClosedFar ++ [.main, .main, .fact (.spend1 1000), .res 1000, .crash, .main]
+  toClosedFar ++ [.main, .main, .fact (.spend1 1000 .ours), .res 1000, .crash, .main]
 
 def sF3b : Sys := run specFar init f3bSchedule
 
@@ -233,23 +371,24 @@ theorem resolved_record_is_never_deleted (f : Facts) (r : RunRes) (h : r.pc = .f
 /-! ## non-vacuity -/
 
 example : Spec.KeysNodup specNear := by unfold Spec.KeysNodup; decide
-example : Spec.Unambiguous specNear := by
-  intro i b b' h1 h2
-  simp [expectedMsgs, specNear, failMsgs, Contract.upstream, RKind.isHtlc] at h1 h2
-  rcases h1 with ⟨rfl, rfl⟩ | ⟨rfl, rfl⟩ <;> rcases h2 with ⟨h, rfl⟩ | ⟨h, rfl⟩ <;> first | rfl | omega
+example : Spec.CoopEmpty specFar := by intro h; cases h
 
-example : Spec.CoopClean specFar := by intro h; cases h
+/-- `specFar` is the scenario built from its htlc set. -/
+example : specFar =
+    specOf .localForce 100 5 true
+      [ { idx := 10, cls := .live, expiry := 140, incoming := false },
+        { idx := 20, cls := .dust, expiry := 500, incoming := false } ]
+      [ { key := 1000, kind := .cs, twoStage := false, idx := 0, expiry := 0 } ] := by
+  rfl
 
-/-- a run with a stop in StateWaitingFullResolution (outside the window) that terminates:
-    hypotheses of `same_outcome_partial` are satisfiable with a real stop. -/
-def stoppedOk : Sys :=
-  run specFar init (toClosedFar ++
-    [.main, .main, .fact (.spend1 1000), .res 1000, .res 1000, .crash, .main,
-     .fact (.height 141), .res 10, .fact (.spend1 10), .res 10, .crash, .main,
-     .fact (.spend2 10), .res 10, .res 10, .main, .main, .main, .main])
-
-example : stoppedOk.chan.fullyClosed = true ∧ stoppedOk.crashes = 2 ∧
-    stoppedOk.resolvedKeys = [10, 1000] ∧ stoppedOk.msgs = [(20, false), (10, false)] := by decide
+example : Spec.IdxDisjoint specFar := by
+  have : specFar =
+    specOf .localForce 100 5 true
+      [ { idx := 10, cls := .live, expiry := 140, incoming := false },
+        { idx := 20, cls := .dust, expiry := 500, incoming := false } ]
+      [ { key := 1000, kind := .cs, twoStage := false, idx := 0, expiry := 0 } ] := by rfl
+  rw [this]
+  exact idxDisjoint_specOf _ _ _ _ _ _ (by decide) (by decide)
 
 /-- the schedules used above are reachable states. -/
 theorem run_reach (sp : Spec) : ∀ (acts : List Action) (s : Sys),
@@ -264,8 +403,6 @@ theorem run_reach (sp : Spec) : ∀ (acts : List Action) (s : Sys),
     | none => simpa [hs] using ih s h
     | some s' => simpa [hs] using ih s' (Reach.step h trivial hs)
 
-/-- the hypotheses of `no_progress_lost_partial` are satisfiable at a real re-execution:
-    a stop directly after `InsertUnresolvedContracts`, then `Start`. -/
 def allowedB (s : Sys) : Action → Bool
   | .res _ => s.log.state != .contractClosed
   | .resAlt _ => s.log.state != .contractClosed
@@ -275,11 +412,17 @@ theorem allowedB_sound (s : Sys) (a : Action) (h : allowedB s a = true) : noResI
   cases a <;> simp_all [allowedB, noResInClosed]
 
 def stopOkB (s : Sys) : Action → Bool
-  | .crash => s.log.state != .contractClosed
+  | .crash => s.log.state != .contractClosed &&
+      !(s.log.state == .default && s.log.hasCS && !s.chan.pendingClose)
   | _ => true
 
-theorem stopOkB_sound (s : Sys) (a : Action) (h : stopOkB s a = true) : noStopInClosed s a := by
-  cases a <;> simp_all [stopOkB, noStopInClosed]
+theorem stopOkB_sound (s : Sys) (a : Action) (h : stopOkB s a = true) : noStopInWindows s a := by
+  cases a <;> simp_all [stopOkB, noStopInWindows]
+  intro h1 h2
+  rcases h.2 with (h3 | h3) | h3
+  · exact absurd h1 h3
+  · rw [h2] at h3; cases h3
+  · exact h3
 
 def runAllowed (sp : Spec) (ok : Sys → Action → Bool) : Sys → List Action → Bool
   | _, [] => true
@@ -301,16 +444,29 @@ theorem run_reach_of (sp : Spec) (H : Sys → Action → Prop) (ok : Sys → Act
       rw [hs] at hal
       simpa [hs] using ih s' (Reach.step h (hsound _ _ hal.1) hs) hal.2
 
+/-- the hypotheses of `no_progress_lost_partial` are satisfiable at a real re-execution:
+    a stop directly after `InsertUnresolvedContracts`, then `Start`. -/
 def sReexec : Sys := run specNear init (toWindow ++ [.crash])
 
 example : Reach specNear noResInClosed sReexec :=
   run_reach_of _ _ _ allowedB_sound _ _ .init (by decide)
 
 example :
-    sReexec.pc = .adv ∧ advRes specNear sReexec = .insert [] [] ∧ sReexec.log.contracts.length = 2 := by
+    sReexec.pc = .adv ∧ advRes specNear sReexec = .insert [] [] ∧ sReexec.log.contracts.length = 3 := by
   decide
 
-example : Reach specFar noStopInClosed stoppedOk :=
+/-- a run with two stops in StateWaitingFullResolution (outside the windows) that terminates:
+    the hypotheses of `same_outcome_partial` are satisfiable with real stops. -/
+def stoppedOk : Sys :=
+  run specFar init (toClosedFar ++
+    [.main, .main, .fact (.spend1 1000 .ours), .res 1000, .res 1000, .crash, .main,
+     .fact (.height 141), .res 10, .fact (.spend1 10 .ours), .res 10, .crash, .main,
+     .fact (.spend2 10), .res 10, .res 10, .main, .main, .main, .main])
+
+example : stoppedOk.chan.fullyClosed = true ∧ stoppedOk.crashes = 2 ∧
+    stoppedOk.resolvedKeys = [10, 1000] ∧ stoppedOk.msgs = [(20, false), (10, false)] := by decide
+
+example : Reach specFar noStopInWindows stoppedOk :=
   run_reach_of _ _ _ stopOkB_sound _ _ .init (by decide)
 
 end LndModel.C13.Props
